@@ -198,6 +198,7 @@ type WireGen struct {
 	// curKeywords: the option keywords of the command being generated; now and then a positional
 	// value spells one of them (it must still be taken as a value)
 	curKeywords []string
+	curCmd      string // the command being generated (lower case)
 	// ForceKeyword: the next positional value (not a key) of the vector being generated spells one
 	// of the command's own option keywords
 	ForceKeyword bool
@@ -431,7 +432,11 @@ func (g *WireGen) genComb(c *Comb, malformed float64, nkeys *int) []string {
 		n := 1 + g.pick(3)
 		var t []string
 		for i := 0; i < n; i++ {
-			t = append(t, g.val("field"), g.val("value"))
+			if g.curCmd == "mset" || g.curCmd == "msetnx" {
+				t = append(t, g.key(), g.val("value")) // the names of a multi-set are KEYS
+			} else {
+				t = append(t, g.val("field"), g.val("value"))
+			}
 		}
 		if bad {
 			t = t[:len(t)-1]
@@ -487,6 +492,7 @@ func (g *WireGen) Vector(cg *CmdGrammar, malformed float64) []string {
 	out := []string{name}
 	nkeys := 1
 	g.curKeywords = nil
+	g.curCmd = cg.Name
 	collectKeywords(cg.Combs, &g.curKeywords)
 	if cg.Combs != nil {
 		var opts [][]string
@@ -558,6 +564,7 @@ func (g *WireGen) VectorOpts(cg *CmdGrammar, which []OptChoice) []string {
 	out := []string{cg.Name}
 	nkeys := 1
 	g.curKeywords = nil
+	g.curCmd = cg.Name
 	collectKeywords(cg.Combs, &g.curKeywords)
 	for _, c := range cg.Combs {
 		if positional(c) {
